@@ -12,6 +12,8 @@ The schoolbook and Karatsuba range products are proved exact on every range shap
 import GivaroModel.Lemmas.PolyLemmas
 import GivaroModel.Lemmas.PolyKara
 import GivaroModel.Lemmas.PolyMisc
+import GivaroModel.Lemmas.PolyDiv
+import GivaroModel.Lemmas.PolyEuclid
 
 open Polynomial
 set_option linter.unusedSectionVars false
@@ -95,7 +97,15 @@ theorem results_normal (thr : Nat) (P Q : List K) (u : K) :
     Normal (reverse P) ∧ Normal (modpowx P thr) ∧ Normal (powerCompose P thr) := by
   have n0 : Normal ([] : List K) := by simp [Normal]
   refine ⟨?_, ?_, ?_, Givaro.Lemmas.Poly.setdegree_normal _, Givaro.Lemmas.Poly.setdegree_normal _,
-          Givaro.Lemmas.Poly.setdegree_normal _, Givaro.Lemmas.Poly.setdegree_normal _⟩
+          Givaro.Lemmas.Poly.setdegree_normal _, ?_⟩
+  rotate_left 3
+  · unfold powerCompose; split
+    · exact n0
+    · split
+      · unfold assignC; split
+        · exact n0
+        · next hc => simp only [Normal, List.getLast?_singleton, ne_eq, Option.some.injEq]; exact hc
+      · exact Givaro.Lemmas.Poly.setdegree_normal _
   · unfold mul; split
     · exact n0
     · exact Givaro.Lemmas.Poly.setdegree_normal _
@@ -166,6 +176,13 @@ example : ∃ thr : Nat, 1 ≤ thr := ⟨50, by decide⟩
 /-- the schoolbook square alone (any operand) -/
 theorem stdsqr_exact (P : List K) : toPoly (stdsqr (1 + 1) P) = toPoly P * toPoly P := toPoly_stdsqr P
 
+/-- the truncated product `mul(R,P,Q,Val,deg)` holds exactly the coefficients `Val … deg` of `P·Q` (and nothing else):
+    every operand, every window (also empty and beyond the degree of the product) -/
+theorem multr_exact (P Q : List K) (val deg i : Nat) :
+    (toPoly (mulWindow P Q val deg)).coeff i
+      = if i + val ≤ deg then (toPoly P * toPoly Q).coeff (i + val) else 0 :=
+  coeff_mulWindow P Q val deg i
+
 /-- the fused forms are exact (they are compositions of `mul`, `addin`, `subin`, `sub`, `neg`) -/
 theorem fused_exact (thr : Nat) (R A X' Y : List K) (c : K) :
     toPoly (axpy thr A X' Y) = toPoly A * toPoly X' + toPoly Y ∧
@@ -196,6 +213,42 @@ theorem divmod_identity (thr : Nat) (A B Qd : List K) :
     toPoly A = toPoly B * toPoly Qd + toPoly (maxpy thr Qd B A) := by
   unfold maxpy; rw [toPoly_sub, toPoly_mul]; ring
 
+/-! ### division by the implementation's own algorithm -/
+
+/-- Tier B `newton_inv_exact`: `invmodpowx(G,A,l)` (`G = 1/A[0]`, doubling loop `i = 2,4,… < l`, last step at `l`; each step
+    `S = G²`, `G += G`, `Am = A[0,i)·S mod X^i`, `G -= Am`) returns `G` with `G·A ≡ 1 (mod X^l)`, for every `l`, every `A`
+    whose constant coefficient is invertible, every threshold ≥ 1 -/
+theorem newton_inv_exact (thr : Nat) (hthr : 1 ≤ thr) (A : List K) (l : Nat) (h0 : A.getD 0 0 ≠ 0) :
+    X ^ l ∣ toPoly (invmodpowx thr A l) * toPoly A - 1 :=
+  invmodpowx_spec thr hthr A l h0
+
+example : ∃ (thr : Nat) (A : List ℚ), 1 ≤ thr ∧ A.getD 0 0 ≠ 0 := ⟨50, [1], by decide, by simp⟩
+
+/-- Tier B `div_exact`: `div(Q,A,B)` as written (zero for `deg A < deg B`, coefficientwise for a constant `B`, otherwise
+    reverse · Newton inverse mod `X^(deg A - deg B + 1)` · truncated generic product · `reversein`) returns the Euclidean
+    quotient: every field, every `A`, every non-zero `B` (any storage), every threshold ≥ 1 -/
+theorem div_exact (thr : Nat) (hthr : 1 ≤ thr) (A B : List K) (hb : toPoly B ≠ 0) :
+    toPoly (Model.Poly.div thr A B) = toPoly A / toPoly B :=
+  toPoly_div thr hthr A B hb
+
+/-- Tier B `divmod_exact`: `divmod(Q,R,A,B)` returns the quotient and the remainder: `A = B·Q + R` and `deg R < deg B` -/
+theorem divmod_exact (thr : Nat) (hthr : 1 ≤ thr) (A B : List K) (hb : toPoly B ≠ 0) :
+    toPoly (Model.Poly.divmod thr A B).1 = toPoly A / toPoly B ∧
+    toPoly (Model.Poly.divmod thr A B).2 = toPoly A % toPoly B ∧
+    toPoly A = toPoly B * toPoly (Model.Poly.divmod thr A B).1 + toPoly (Model.Poly.divmod thr A B).2 ∧
+    (toPoly (Model.Poly.divmod thr A B).2).degree < (toPoly B).degree := by
+  obtain ⟨h1, h2⟩ := toPoly_divmod thr hthr A B hb
+  refine ⟨h1, h2, ?_, ?_⟩
+  · rw [h1, h2]; exact (EuclideanDomain.div_add_mod _ _).symm
+  · rw [h2]; exact degree_mod_lt _ hb
+
+/-- `mod(R,A,B)` is the Euclidean remainder -/
+theorem mod_exact (thr : Nat) (hthr : 1 ≤ thr) (A B : List K) (hb : toPoly B ≠ 0) :
+    toPoly (Model.Poly.mod thr A B) = toPoly A % toPoly B :=
+  (toPoly_divmod thr hthr A B hb).2
+
+example : ∃ (thr : Nat) (B : List ℚ), 1 ≤ thr ∧ toPoly B ≠ 0 := ⟨50, [1], by decide, by simp⟩
+
 /-! ### the Euclid loop of the extended gcd -/
 
 /-- Tier B (Euclid loop invariants): `gcd(F,S0,T0,A,B)` as written — early exits, monic normalisation of both operands,
@@ -216,6 +269,59 @@ theorem gcdext_loop_sound (thr : Nat) (divf : List K → List K → List K) (fue
 example : ∃ (A B F' S' T' : List ℚ), gcdext 50 (fun _ _ => []) 5 A B = some (F', S', T') :=
   ⟨[], [1], _, _, _, rfl⟩
 
+/-- Tier B `gcdext_exact` (total): `gcd(F,S0,T0,A,B)` with the implementation's own `div`.  For every `A`, `B` (zero,
+    constant, any storage) and every threshold ≥ 1 the loop finishes within `size(B)+1` rounds, and the result divides both
+    operands, satisfies the Bezout identity `S0·A + T0·B = F`, and is divisible by every common divisor. -/
+theorem gcdext_exact (thr : Nat) (hthr : 1 ≤ thr) (fuel : Nat) (A B : List K) (hf : B.length + 1 ≤ fuel) :
+    ∃ F' S' T', gcdext thr (Model.Poly.div thr) fuel A B = some (F', S', T') ∧
+      toPoly S' * toPoly A + toPoly T' * toPoly B = toPoly F' ∧ toPoly F' ∣ toPoly A ∧ toPoly F' ∣ toPoly B ∧
+      ∀ E : K[X], E ∣ toPoly A → E ∣ toPoly B → E ∣ toPoly F' := by
+  obtain ⟨F', S', T', hr, hb, hA, hB⟩ := gcdext_total thr hthr fuel A B hf
+  refine ⟨F', S', T', hr, hb, hA, hB, ?_⟩
+  intro E hEA hEB
+  rw [← hb]
+  exact dvd_add (dvd_mul_of_dvd_right hEA _) (dvd_mul_of_dvd_right hEB _)
+
+example : ∃ (thr fuel : Nat) (B : List ℚ), 1 ≤ thr ∧ B.length + 1 ≤ fuel := ⟨50, 2, [1], by decide, by decide⟩
+
+/-- Tier B `gcd_exact`: plain `gcd(G,P,Q)` as written (early exits, larger degree first, `mod` by the implementation's own
+    division, `1` for a constant result): it finishes within `size(P)+size(Q)+1` rounds and the result divides `P` and `Q`
+    and is divisible by every common divisor — every field, all operands (zero, constant, any storage), threshold ≥ 1 -/
+theorem gcd_exact (thr : Nat) (hthr : 1 ≤ thr) (fuel : Nat) (P Q : List K) (hf : P.length + Q.length + 1 ≤ fuel) :
+    ∃ D, Model.Poly.gcd thr fuel P Q = some D ∧ toPoly D ∣ toPoly P ∧ toPoly D ∣ toPoly Q ∧
+      ∀ E : K[X], E ∣ toPoly P → E ∣ toPoly Q → E ∣ toPoly D :=
+  gcd_spec thr hthr fuel P Q hf
+
+example : ∃ (thr fuel : Nat) (P Q : List ℚ), 1 ≤ thr ∧ P.length + Q.length + 1 ≤ fuel :=
+  ⟨50, 3, [1], [2], by decide, by decide⟩
+
+/-- Tier B `invmod_exact`: `invmod(S0,A,B)` as written (early exit `1/leadcoef(A)`, monic remainder sequence with the
+    implementation's own division, cofactor of `A` only).  For every non-zero modulus `B` and every `A` coprime to it the loop
+    finishes within `size(B)+1` rounds and the result `U` satisfies `U·A ≡ 1 (mod B)`. -/
+theorem invmod_exact (thr : Nat) (hthr : 1 ≤ thr) (fuel : Nat) (A B : List K) (hf : B.length + 1 ≤ fuel)
+    (hb : toPoly B ≠ 0) (hcop : ∀ E : K[X], E ∣ toPoly A → E ∣ toPoly B → E ∣ 1) :
+    ∃ U, Model.Poly.invmod thr fuel A B = some U ∧ toPoly B ∣ toPoly U * toPoly A - 1 :=
+  invmod_spec thr hthr fuel A B hf hb hcop
+
+example : ∃ (A B : List ℚ), toPoly B ≠ 0 ∧ ∀ E : ℚ[X], E ∣ toPoly A → E ∣ toPoly B → E ∣ 1 :=
+  ⟨[1], [1], by simp, fun E h _ => by simpa using h⟩
+
+/-- Tier B `lcm_exact`: `lcm(F,A,B)` as written (zero / constant operands, larger degree first, monic remainder sequence
+    with both cofactor rows and the implementation's own division, result `S1·X`): it finishes within
+    `size(A)+size(B)+1` rounds and returns a least common multiple — `A ∣ L`, `B ∣ L`, and `L` divides every common
+    multiple (for a zero operand `L = 0`).  Every field, all operands, threshold ≥ 1. -/
+theorem lcm_exact (thr : Nat) (hthr : 1 ≤ thr) (fuel : Nat) (A B : List K) (hf : A.length + B.length + 1 ≤ fuel) :
+    ∃ L, Model.Poly.lcm thr fuel A B = some L ∧ toPoly A ∣ toPoly L ∧ toPoly B ∣ toPoly L ∧
+      ∀ M : K[X], toPoly A ∣ M → toPoly B ∣ M → toPoly L ∣ M :=
+  lcm_spec thr hthr fuel A B hf
+
+example : ∃ (thr fuel : Nat) (A B : List ℚ), 1 ≤ thr ∧ A.length + B.length + 1 ≤ fuel :=
+  ⟨50, 3, [1], [2], by decide, by decide⟩
+
+/-- `pow(W,P,n)` (square and multiply from the least significant bit, generic `mul`) is `P^n`: every `n`, every threshold -/
+theorem pow_exact (thr : Nat) (P : List K) (n : Nat) : toPoly (Model.Poly.pow thr P n) = toPoly P ^ n :=
+  toPoly_pow thr P n
+
 /-! ### reversal and composition with X^b -/
 
 /-- `reverse` / `reversein` reflect the denoted polynomial with respect to the stored size (`X^(size-1)·P(1/X)`) -/
@@ -228,11 +334,24 @@ theorem reverse_exact_normal (Q : List K) (hn : Normal Q) : toPoly (Model.Poly.r
 
 example : ∃ Q : List ℚ, Normal Q := ⟨[1, 2], by simp [Normal]⟩
 
-/-- `power_compose(W,P,b)` is `P(X^b)` for every `b ≥ 1` and every storage of `P` -/
-theorem compose_exact (P : List K) (b : Nat) (hb : 1 ≤ b) : toPoly (powerCompose P b) = (toPoly P).comp (X ^ b) :=
-  toPoly_powerCompose P b hb
+/-- `power_compose(W,P,b)` is `P(X^b)` for every `b ≥ 0` and every storage of `P`; for `b = 0` this is the constant `P(1)` -/
+theorem compose_exact (P : List K) (b : Nat) : toPoly (powerCompose P b) = (toPoly P).comp (X ^ b) :=
+  toPoly_powerCompose P b
 
-example : ∃ b : Nat, 1 ≤ b := ⟨1, le_refl 1⟩
+theorem compose_zero_exact (P : List K) : toPoly (powerCompose P 0) = C ((toPoly P).eval 1) := by
+  rw [toPoly_powerCompose, pow_zero, ← C_1, comp_C]
+
+/-- known defect of the tree before fixes/C08_6: `power_compose(W,P,0)` is not `P(1)` -/
+theorem compose_zero_unrepaired_counterexample :
+    ¬ ∀ P : List ℚ, toPoly (powerCompose0_unrepaired P) = (toPoly P).comp (X ^ 0) := by
+  intro h
+  have h1 := h [1, 2, 3]
+  have e : powerCompose0_unrepaired ([1, 2, 3] : List ℚ) = [2] := by
+    simp [powerCompose0_unrepaired, setdegree]
+  rw [e] at h1
+  have h2 := congrArg (fun p => p.eval 0) h1
+  simp at h2
+  norm_num at h2
 
 /-! ### certificates: what the driver checks on the implementation's output determines what the property asks -/
 
